@@ -56,8 +56,8 @@ impl SDl {
         match self {
             SDl::Past => 0,
             SDl::Ms(m) => m,
-            SDl::Beyond(s) => s.saturating_mul(1000),
-            SDl::Max => u64::MAX,
+            SDl::Beyond(s) => s.saturating_mul(1000).min(1 << 60),
+            SDl::Max => 1 << 60,
         }
     }
     fn timed(self) -> bool {
@@ -1336,6 +1336,7 @@ fn oracles(
     let mut eof_seen_at: Option<usize> = None;
     let mut outside_quantifier = false;
     let mut last_in_was_noop_cancel = false;
+    let mut last_in_was_dup = false;
     let mut must_refuse: Vec<usize> = vec![];
     let mut last_was_at_limit_blocked = false;
     let mut idle_f6: Vec<(usize, u64, bool)> = vec![];
@@ -1344,6 +1345,7 @@ fn oracles(
             Ev::In { seq, kind, id, v, .. } => {
                 if *kind == "req" {
                     last_in_was_noop_cancel = false;
+                    last_in_was_dup = false;
                     v_read.insert(*seq, *v);
                     let certain = yielded
                         .iter()
@@ -1362,6 +1364,7 @@ fn oracles(
                     }
                     let l = life.get_mut(seq).unwrap();
                     if dup_certain {
+                        last_in_was_dup = true;
                         l.dup_ignored = true;
                         out.cells.push("C08.duplicate-while-in-flight".into());
                         if l.yielded.is_some() {
@@ -1385,6 +1388,7 @@ fn oracles(
                         }
                     }
                 } else {
+                    last_in_was_dup = false;
                     last_in_was_noop_cancel = true;
                     if let Some(q) = yielded.iter().rev().find(|q| life[q].id == *id && !ended_set.contains(q)).cloned() {
                         ended_set.insert(q);
@@ -1529,6 +1533,11 @@ fn oracles(
                     out.viols.push(Viol::new("C02", "server-readable-input-ignored", format!("idle at step {step}: {inbox} messages are readable but the channel is not runnable")));
                     if last_in_was_noop_cancel {
                         out.viols.push(Viol::new("C04", "noop-cancel-stalled-channel", format!("idle at step {step}: after a cancellation for an unknown or finished request the channel stopped reading ({inbox} messages stay unread)")));
+                        out.viols.push(Viol::new("C16", "odd-message-stalled-channel", format!("idle at step {step}: after a cancellation for an id not in use the connection stopped serving ({inbox} messages stay unread)")));
+                    }
+                    if last_in_was_dup {
+                        out.viols.push(Viol::new("C08", "duplicate-stalled-channel", format!("idle at step {step}: after ignoring a duplicate of an in-flight id the channel stopped reading ({inbox} messages stay unread)")));
+                        out.viols.push(Viol::new("C16", "odd-message-stalled-channel", format!("idle at step {step}: after a duplicate request id the connection stopped serving ({inbox} messages stay unread)")));
                     }
                 }
             }
